@@ -96,7 +96,7 @@ def replay_serde_truncated(d):
     fcp = _fcp(d)
     data = bytearray(d["data"])
     if d.get("_after_full") and d.get("full") is not None:
-        for prior in (bytearray(d["full"]), bytearray([255] * (len(d["full"]) + 4))):
+        for prior in (bytearray(d["full"]), bytearray([0] * (len(d["full"]) + 4))):
             try:
                 serde.decode(fcp, d["top"], prior)      # an earlier, longer message in the same process
             except Exception:
